@@ -87,6 +87,22 @@ fn subpacket_set(kind: usize, key: &impl KeyDetails, rng: &mut impl Rng) -> Vec<
         rng.fill_bytes(&mut v);
         Subpacket::regular(SubpacketData::Notation(Notation { readable: false, name: Bytes::from_static(b"test@example.org"), value: v.into() })).unwrap()
     };
+    // hashed areas of an exact total size next to the 16-bit limits (v4 area length field, and the v4
+    // trailer count 6 + area which passes 65535 for areas of 65530 and more)
+    if kind >= 8 {
+        let target = [65529usize, 65530, 65535][(kind - 8) % 3];
+        let base: usize = ts.write_len() + fp.write_len();
+        let mut n = target - base - 30;
+        for _ in 0..4 {
+            let sp = note(n, rng);
+            let total = base + sp.write_len();
+            if total == target {
+                return vec![ts, fp, sp];
+            }
+            n = (n as i64 + target as i64 - total as i64) as usize;
+        }
+        return vec![ts, fp, note(n, rng)];
+    }
     match kind % 8 {
         0 => vec![],
         1 => vec![ts, fp],
@@ -365,7 +381,7 @@ pub fn run(ctx: &mut Ctx) {
 
         // ================= sign side
         for (hi, hash) in hashes.iter().enumerate() {
-            for spk in 0..8usize {
+            for spk in 0..11usize {
                 if slow && spk % 3 != 1 {
                     continue;
                 }
@@ -405,7 +421,7 @@ pub fn run(ctx: &mut Ctx) {
                             Err(e) => {
                                 rec.take();
                                 // the v4 hashed area is limited to 64 KiB: a refusal there is expected
-                                if !(spk % 8 == 6 && !k.v6) {
+                                if !((spk % 8 == 6 || spk >= 8) && !k.v6) {
                                     ctx.tally("sign.refused", 1);
                                     ctx.note(format!("sign refused: {e}"));
                                 }
